@@ -1735,16 +1735,22 @@ impl Evaluator {
     /// the level, rather than rescale to the next level.
     pub fn rescale_to(&self, encrypted: &Ciphertext, parms_id: &ParmsID, destination: &mut Ciphertext) {
         self.check_ciphertext(encrypted);
-        if self.context.last_parms_id() == encrypted.parms_id() {
-            panic!("[Invalid argument] End of modulus switching chain reached");
+        let context_data = self.get_context_data(encrypted.parms_id());
+        let target_context_data = self.get_context_data(parms_id);
+        if context_data.chain_index() < target_context_data.chain_index() {
+            panic!("[Invalid argument] Cannot rescale to a higher level");
         }
         match self.context.first_context_data().unwrap().parms().scheme() {
             SchemeType::BFV | SchemeType::BGV => 
                 panic!("[Invalid argument] Rescale is only supported for CKKS scheme"),
-            SchemeType::CKKS => 
-                while encrypted.parms_id() != parms_id {
-                    self.mod_switch_scale_to_next_internal(encrypted, destination);
-                },
+            SchemeType::CKKS => {
+                // Move down one level at a time, always rescaling the current result
+                *destination = encrypted.clone();
+                while destination.parms_id() != parms_id {
+                    let current = destination.clone();
+                    self.mod_switch_scale_to_next_internal(&current, destination);
+                }
+            },
             _ => panic!("[Invalid argument] Unsupported scheme")
         }
     }
